@@ -13,7 +13,7 @@ for d in sorted(glob.glob(os.path.join(ROOT, "seeded", "*/")), key=key):
     det = m["detected_by"]
     need = m["needs_to_manifest"].replace("|", "/")
     if det is None:
-        status = "**not detected** — " + ("outside every claim (back end)" if "BACK END" in need else ("not counted: allowed by the statement" if "NOT counted" in need else "outside the claim"))
+        status = "**not detected** — " + (("not counted: C01's subject" if "NOT counted" in need else "outside every claim (back end)") if "BACK END" in need else ("not counted: allowed by the statement" if "NOT counted" in need else "outside the claim"))
     elif "after strengthening" in det:
         status = "detected after strengthening"
     else:
@@ -22,8 +22,8 @@ for d in sorted(glob.glob(os.path.join(ROOT, "seeded", "*/")), key=key):
 tot = len(rows); asb = sum("as built" in r for r in rows); aft = sum("after strengthening" in r for r in rows); nd = sum("not detected" in r for r in rows)
 be = sum("back end" in r for r in rows)
 table = ("| seed | needs, to manifest | outcome | by which obligation |\n|---|---|---|---|\n" + "\n".join(rows) +
-         f"\n\nTotals: {tot} changes (two rounds; round-2 seeds are numbered 3 and 4); {asb} detected by the checks as they stood when the seed arrived, {aft} after strengthening, "
-         f"{nd} not detected ({be} of them in the back end, which no check can execute here; the others are explained in their rows).\n")
+         f"\n\nTotals: {tot} changes (three rounds; seeds numbered 3 and 4 come from a later round than 1 and 2; C07, C11 and C19 were seeded once, after they became claimed); {asb} detected by the checks as they stood when the seed arrived, {aft} after strengthening, "
+         f"{nd} not detected ({be} of them concern the back end; each is explained in its row).\n")
 p = os.path.join(ROOT, "DESIGN.md")
 s = open(p).read()
 if "<!-- seeds:begin -->" in s:
